@@ -139,7 +139,9 @@ def main(tier):
             js.append({"program": p_, "families": ["task", "resource"], "family": "interaction:" + lab.split("/")[1]})
     if lvl == "deep":
         js = common.widen(js, by=(1, 2))
-    js += common.staged(js, stride=4 if tier == "quick" else 1, kinds=("solve", "init"))
+    base = list(js)
+    js += common.staged(base, stride=4 if tier == "quick" else 1, kinds=("solve", "init"))
+    js += common.early(base, stride=5 if tier == "quick" else 2)
     for j in js:
         # the busy bounds of every assignment are explored too: the interval each worker is held
         # must be the one the requirement implies (static, delayed, selected) or lie inside the task (dynamic)
